@@ -157,7 +157,7 @@ def split_params(ftype):
 
 def ast_cache_key():
     srcs = vf.repo_sources() + [INST, os.path.abspath(__file__)]
-    return vf.file_hash(srcs, "c16-objmodel-v7")
+    return vf.file_hash(srcs, "c16-objmodel-v9")
 
 
 def dump_ast():
@@ -672,17 +672,65 @@ def class_fields(idx, c, seen=None, notes=None):
     return fields, statics, bases
 
 
+ACCESS = {}          # id of a member function declaration -> "public" | "protected" | "private"
+
+
 def methods_of(idx, c):
     out = []
+    acc = "public" if c.get("tagUsed") == "struct" else "private"
     for x in kids(c):
         k = x.get("kind")
-        if k in FUNC_KINDS:
+        if k == "AccessSpecDecl":
+            acc = x.get("access", acc)
+        elif k in FUNC_KINDS:
+            ACCESS[x["id"]] = acc
             out.append(x)
         elif k == "FunctionTemplateDecl":
             for m in kids(x):
                 if m.get("kind") in FUNC_KINDS and has_body(m) and not _is_dependent(m):
+                    ACCESS[m["id"]] = acc
                     out.append(m)
     return out
+
+
+def _mentions_any_param(n):
+    if n.get("kind") == "DeclRefExpr" and n.get("referencedDecl", {}).get("kind") == "ParmVarDecl":
+        return True
+    return any(_mentions_any_param(c) for c in kids(n))
+
+
+def param_members(idx, an, c, bases, fnames):
+    """members whose value a constructor derives from its parameters: initialised from an expression that mentions a constructor
+    parameter or another such member, or written in the body (transitively) of a constructor that has parameters"""
+    dep = set()
+    for cls in [c] + bases:
+        for m in kids(cls):
+            if m.get("kind") == "FunctionTemplateDecl":
+                cands = [x for x in kids(m) if x.get("kind") == "CXXConstructorDecl"]
+            else:
+                cands = [m] if m.get("kind") == "CXXConstructorDecl" else []
+            for ct in cands:
+                ct = idx.body(ct["id"]) or ct
+                ps = [p for p in kids(ct) if p.get("kind") == "ParmVarDecl"]
+                if not ps or is_copy_param(idx, ct, cls.get("name")) or (len(ps) == 1 and "&&" in qt(ps[0])):
+                    continue
+                changed = True
+                inits = [x for x in kids(ct) if x.get("kind") == "CXXCtorInitializer" and "anyInit" in x]
+                while changed:
+                    changed = False
+                    for ini in inits:
+                        nm = ini["anyInit"].get("name")
+                        if nm in dep:
+                            continue
+                        fn = an.info(ct)
+                        own = [mm for kind, mm in sum([src_members(sx, None, fn) for sx in kids(ini)], []) if kind == "own"]
+                        if any(_mentions_any_param(sx) for sx in kids(ini)) or any(o[0] in dep for o in own):
+                            dep.add(nm); changed = True
+                if has_body(ct):
+                    for e in an.summary(ct)["effects"]:
+                        if e["kind"] in ("own_write", "plain_write") and e.get("path"):
+                            dep.add(e["path"][0])
+    return sorted(x for x in dep if x in fnames)
 
 
 def _is_dependent(m):
@@ -1035,10 +1083,14 @@ def describe_class(idx, an, disp, c):
         r_own = sorted(x for x in s["reads"] if x in fnames)
         reads |= set(r_own)
         writes = []
+        mut_writes = []
         for e in s["effects"]:
             if e["kind"] == "own_write" and fi.is_const:
                 if e["path"] and e["path"][0] in fnames:
                     writes.append({"k": "own", "member": ".".join(e["path"]), "how": e["how"], "via": e.get("via", [])[-2:]})
+            elif e["kind"] in ("own_write", "plain_write") and not fi.is_const:
+                if e.get("path") and e["path"][0] in fnames and e["path"][0] not in mut_writes:
+                    mut_writes.append(e["path"][0])
             elif e["kind"] == "static_local":
                 if e.get("decl") or e.get("write"):
                     writes.append({"k": "static_local", "member": e["var"], "how": "init" if (e.get("decl") or e.get("init")) else "static",
@@ -1054,7 +1106,9 @@ def describe_class(idx, an, disp, c):
             if key not in seenw:
                 seenw.add(key); uniq.append(w)
         ps, _ = split_params(qt(b))
-        mdesc.append({"name": b.get("name"), "sig": qt(b)[:160], "params": ",".join(norm(x) for x in ps), "cls": cls.get("name"), "const": fi.is_const and not isstatic,
+        mdesc.append({"name": b.get("name"), "sig": qt(b)[:160], "params": ",".join(norm(x) for x in ps), "cls": cls.get("name"), "mut_writes": sorted(mut_writes),
+                      "access": ACCESS.get(b["id"]) or ACCESS.get(next((k for k, v in idx.defn.items() if v is b and k in ACCESS), None), "public"),
+                      "const": fi.is_const and not isstatic,
                       "static": isstatic, "reads": r_own, "writes": uniq, "line": b.get("loc", {}).get("line") or b.get("loc", {}).get("expansionLoc", {}).get("line")})
     # copy constructor as an operation ON THE SOURCE (C18: copy-construction from the shared object)
     if cc is not None and has_body(cc):
@@ -1076,6 +1130,7 @@ def describe_class(idx, an, disp, c):
         m["uid"] = base if seen_uid[base] == 1 else "%s#%d" % (base, seen_uid[base])
     d["methods"] = mdesc
     d["reads"] = sorted(reads)
+    d["param_members"] = param_members(idx, an, c, bases, fnames)
     return d
 
 
@@ -1338,6 +1393,35 @@ class Mirror:
     def copy_rf(self):
         return not copy_effects_of(self.d)
 
+    # ---- in-place re-parameterisation (public non-const members: setPrimes, read(istream&), ...)
+    def reparam_core(self):
+        """members read by operations whose value the constructors derive from the parameters, caches excluded"""
+        return [x for x in (self.d.get("param_members") or []) if x in self.d["reads"]]
+
+    MUTATOR_NAMES = re.compile(r"^(set[A-Z_].*|read|reset.*|reinit.*|init|resize|assign)$")
+
+    def is_mutator(self, m):
+        """public non-const member that re-parameterises the object in place: writes a parameter-derived member that operations read,
+        and is named like a setter / reader (conversion members that merely touch containers through non-const accessors are not)"""
+        if m["const"] or m.get("static") or m.get("access", "public") != "public" or not self.MUTATOR_NAMES.match(m["name"] or ""):
+            return False
+        if not any(x in self.reparam_core() for x in m.get("mut_writes", [])):
+            return False
+        # a member inherited from a base cannot refresh what a derived class adds: reported as a note, not decided here
+        decl = {f["name"]: f.get("cls") for f in self.d["members"]}
+        missing = self.mutator_missing(m)
+        own = [x for x in missing if decl.get(x) == m.get("cls")]
+        return not (missing and not own)
+
+    def mutator_missing(self, m):
+        """what a re-parameterising member leaves behind: parameter-derived members it does not rewrite, caches it does not reset"""
+        w = set(m.get("mut_writes", []))
+        need = set(self.d.get("param_members") or []) | set(x for x in self.written if x in self.members)
+        return sorted(need - w)
+
+    def mutator_offenders(self):
+        return [m for m in self.d["methods"] if self.is_mutator(m) and self.mutator_missing(m)]
+
     def why_sc(self, m):
         """reasons a claimed method is not self-contained, as a list of (kind, detail)"""
         r = []
@@ -1394,10 +1478,12 @@ def emit_coq(descs, meta):
         def effstr(e):
             return "%s %s%s" % (e[0], coq_str(e[1]), (" " + e[2]) if len(e) > 2 else "")
         meths = []
+        mir = Mirror(d)
         for m in d["methods"]:
-            meths.append("{| m_name := %s; m_const := %s; m_reads := %s; m_effects := %s |}" % (
+            meths.append("{| m_name := %s; m_const := %s; m_reads := %s; m_effects := %s; m_mutator := %s; m_writes := %s |}" % (
                 coq_str(mname(m)), "true" if m["const"] else "false",
-                coq_list([coq_str(r) for r in m["reads"]]), coq_list([effstr(e) for e in effects_of(d, m)])))
+                coq_list([coq_str(r) for r in m["reads"]]), coq_list([effstr(e) for e in effects_of(d, m)]),
+                "true" if mir.is_mutator(m) else "false", coq_list([coq_str(w) for w in m.get("mut_writes", [])])))
         rc = d.get("rc")
         if rc is None:
             rcs = "None"
@@ -1416,6 +1502,7 @@ def emit_coq(descs, meta):
         out.append("  cd_copy := %s;" % mapstr(cm))
         out.append("  cd_assign := %s;" % mapstr(am))
         out.append("  cd_reads := %s;" % coq_list([coq_str(r) for r in d["reads"]]))
+        out.append("  cd_params := %s;" % coq_list([coq_str(r) for r in (d.get("param_members") or [])]))
         out.append("  cd_copy_effects := %s;" % coq_list([effstr(e) for e in copy_effects_of(d)]))
         out.append("  cd_rc := %s;" % rcs)
         out.append("  cd_methods := %s" % ("[\n    " + ";\n    ".join(meths) + "]" if meths else "[]"))
@@ -1427,13 +1514,14 @@ def emit_coq(descs, meta):
 
 def emit_decide(descs):
     """gen/Decide.v: the per-class decisions, computed here and RE-COMPUTED by Coq (vm_compute) from gen/Desc.v"""
-    sc, rf, cp, rc = [], [], [], []
+    sc, rf, cp, rc, mu = [], [], [], [], []
     for d in descs:
         mi = Mirror(d)
         sc.append("(%s, %s)" % (coq_str(d["name"]), coq_list([coq_str(mname(m)) for m in mi.sc_offenders()])))
         rf.append("(%s, %s)" % (coq_str(d["name"]), coq_list([coq_str(mname(m)) for m in mi.rf_offenders()])))
         cp.append("(%s, %s)" % (coq_str(d["name"]), "true" if mi.copy_rf() else "false"))
         rc.append("(%s, %s)" % (coq_str(d["name"]), "true" if mi.rc_ok() else "false"))
+        mu.append("(%s, %s)" % (coq_str(d["name"]), coq_list([coq_str(mname(m)) for m in mi.mutator_offenders()])))
     sep = ";\n    "
     return "\n".join([
         "(* GENERATED by harness/c16_objmodel.py: the decisions per class.  Each lemma is re-decided by vm_compute on gen/Desc.v. *)",
@@ -1447,6 +1535,9 @@ def emit_decide(descs):
         "(* copy-construction from a shared object writes nothing shared *)",
         "Definition Decide_copy_rf_stmt : Prop := map (fun d => (cd_name d, copy_rf_b d)) all_descs =\n   [" + sep.join(cp) + "].",
         "Lemma decide_copy_rf : Decide_copy_rf_stmt.", "Proof. vm_compute. reflexivity. Qed.", "",
+        "(* public members that re-parameterise the object in place but leave a parameter-derived member or a cache behind *)",
+        "Definition Decide_mut_stmt : Prop := map (fun d => (cd_name d, mutator_offenders d)) all_descs =\n   [" + sep.join(mu) + "].",
+        "Lemma decide_mut : Decide_mut_stmt.", "Proof. vm_compute. reflexivity. Qed.", "",
         "(* shared heap parts are reference-counted by a protocol accepted by Refcount.refcount_safe *)",
         "Definition Decide_rc_stmt : Prop := map (fun d => (cd_name d, rc_ok_b d)) all_descs =\n   [" + sep.join(rc) + "].",
         "Lemma decide_rc : Decide_rc_stmt.", "Proof. vm_compute. reflexivity. Qed.", ""]) + "\n"
@@ -1464,6 +1555,7 @@ if __name__ == "__main__":
         print("   sc offenders:", [(mname(m), mi.why_sc(m)) for m in mi.sc_offenders()])
         print("   rf offenders:", [(mname(m), mi.eff[id(m)]) for m in mi.rf_offenders()])
         print("   randomised:", [mname(m) for m in d["methods"] if m["const"] and mi.randomized(m)])
+        print("   param members:", d.get("param_members"), " mutators:", [(mname(m), m.get("mut_writes"), mi.mutator_missing(m)) for m in d["methods"] if mi.is_mutator(m)])
         print("   rc:", d.get("rc") and d["rc"]["assign_order"], "rc_ok", mi.rc_ok(), "shared:", d.get("shared_heap_members"), "copy-effects:", copy_effects_of(d))
         if d["notes"]:
             print("   notes:", d["notes"])
